@@ -28,7 +28,9 @@ CONSTANTS Callers,       \* e.g. {"r1", "r2"}
           Deadlines,     \* values SetDeadline may store (0 = cleared; others absolute times)
           MaxArrivals,   \* resource units that may arrive
           MaxSets,       \* number of SetDeadline calls
-          Variant
+          Variant,
+          Side           \* "read": Read looks at the data first (it drains what was received even after Close / an error);
+                         \* "write": WriteBuffers looks at the socket error and at die first, at the top of every round
 
 VARIABLES now, dl, tok, avail, die, serr,
           pc, timer, tat, c, res, rat, rdl,
@@ -63,9 +65,9 @@ Arm(x) ==
   /\ pc' = [pc EXCEPT ![x] = "check"]
   /\ UNCHANGED <<now, dl, tok, avail, die, serr, res, rat, rdl, arrivals, sets, dlat, multi>>
 
-(* the locked check: take one unit if there is one *)
+(* the locked check: take one unit if there is one (WriteBuffers: unless the session is closed or its socket failed) *)
 Check(x) ==
-  /\ pc[x] = "check"
+  /\ pc[x] = "check" /\ (Side = "read" \/ ~(serr \/ die))
   /\ IF avail > 0
        THEN /\ avail' = avail - 1
             /\ res' = [res EXCEPT ![x] = "ok"] /\ rat' = [rat EXCEPT ![x] = now] /\ pc' = [pc EXCEPT ![x] = "done"] /\ rdl' = [rdl EXCEPT ![x] = dl]
@@ -73,7 +75,7 @@ Check(x) ==
        ELSE pc' = [pc EXCEPT ![x] = "wait"] /\ UNCHANGED <<avail, res, rat, rdl, tok>>
   /\ UNCHANGED <<now, dl, die, serr, timer, tat, c, arrivals, sets, dlat, multi>>
 
-(* rdl: the deadline in force when the call returned, or -1 when it was changed at this very instant (a change that *)
+(* rdl (below): the deadline in force when the call returned, or -1 when it was changed at this very instant (a change that *)
 (* races with the expiry of the previous deadline may legitimately lose)                                            *)
 Finish(x, r) == /\ res' = [res EXCEPT ![x] = r] /\ rat' = [rat EXCEPT ![x] = now] /\ pc' = [pc EXCEPT ![x] = "done"]
                 /\ rdl' = [rdl EXCEPT ![x] = IF dlat = now /\ sets > 0 THEN -1 ELSE dl]
@@ -94,7 +96,13 @@ WakeErr(x) == /\ pc[x] = "wait" /\ serr /\ Finish(x, "error")
 WakeDie(x) == /\ pc[x] = "wait" /\ die /\ Finish(x, "closed")
               /\ UNCHANGED <<now, dl, tok, avail, die, serr, timer, tat, c, arrivals, sets, dlat, multi>>
 
-CallerStep(x) == Arm(x) \/ Check(x) \/ WakeToken(x) \/ WakeTimeout(x) \/ WakeErr(x) \/ WakeDie(x)
+(* WriteBuffers, top of the round: select { case <-chSocketWriteError: ...; case <-die: ...; default: } *)
+CheckFailed(x) == /\ pc[x] = "check" /\ Side = "write"
+                  /\ \/ serr /\ Finish(x, "error")
+                     \/ die /\ Finish(x, "closed")
+                  /\ UNCHANGED <<now, dl, tok, avail, die, serr, timer, tat, c, arrivals, sets, dlat, multi>>
+
+CallerStep(x) == Arm(x) \/ Check(x) \/ CheckFailed(x) \/ WakeToken(x) \/ WakeTimeout(x) \/ WakeErr(x) \/ WakeDie(x)
 
 (* ----------------------------- environment ----------------------------- *)
 Arrive == /\ arrivals < MaxArrivals /\ arrivals' = arrivals + 1 /\ avail' = avail + 1 /\ tok' = 1
